@@ -21,6 +21,12 @@ def knobs_small():
     return nested.NKnobs(max_states=6, max_depth=3, max_branch=3, max_history=8)
 
 
+def knobs_enum():
+    # Enum states: one Enum class per sibling group; segment names are re-used on different levels so that
+    # two classes share member names; the machine's initial state is a root state
+    return nested.NKnobs(p_collide=0.35, p_deep_initial=0.0, max_states=9)
+
+
 def knobs_global():
     return nested.NKnobs(p_local=0.0, p_collide=0.0)
 
@@ -51,17 +57,14 @@ class C02(nestedcheck.NestedCheck):
     streams = (
         NStream('random', knobs=knobs, quick=(16, 60), thorough=(48, 250)),
         NStream('random-small', knobs=knobs_small, quick=(8, 60), thorough=(24, 250)),
+        NStream('enum-states', knobs=knobs_enum, quick=(8, 40), thorough=(16, 150), enum_states=True,
+                pool=('LockedHierarchicalMachine', 'HierarchicalAsyncMachine')),   # the Mermaid graph classes reject Enum children
         NStream('global-only', knobs=knobs_global, quick=(8, 50), thorough=(24, 200)),
         NStream('exhaustive<=4', enum=enum_le4, thorough=(32, 400), others=1, tiers=('thorough',)),
         NStream('5-states', enum=layer(5, 4), thorough=(64, 420), others=1, tiers=('thorough',)),
         NStream('6-states', enum=layer(6, 100), thorough=(64, 210), others=1, tiers=('thorough',)),
     )
-    theorems = ('TM.C02_inv_of_check', 'TM.C02_init', 'TM.C02_step_partial', 'TM.C02_step_clean',
-                'TM.C02_step_counterexample_run', 'TM.C02_step_counterexample', 'TM.C02_history',
-                'TM.C02_resolve_order', 'TM.C02_exit_children_first', 'TM.C02_enter_parents_first',
-                'TM.C02_entered_part_closed', 'TM.C02_new_configuration', 'TM.C02_state_value_roundtrip',
-                'TM.C02_monitor_accepts_model', 'TM.C02_history_queued', 'TM.C02_step_exclusive', 'TM.C02_step_regions',
-                'TM.C02_history_regions')
+    theorems = ('TM.C02_inv_of_check', 'TM.C02_init', 'TM.C02_step_partial', 'TM.C02_step_clean', 'TM.C02_regression_stale_source', 'TM.C02_step_counterexample_run', 'TM.C02_step_counterexample', 'TM.C02_history', 'TM.C02_history_queued', 'TM.C02_step_exclusive', 'TM.C02_step_regions', 'TM.C02_step_global', 'TM.C02_history_regions', 'TM.C02_resolve_order', 'TM.C02_exit_children_first', 'TM.C02_enter_parents_first', 'TM.C02_entered_part_closed', 'TM.C02_new_configuration', 'TM.C02_state_value_roundtrip', 'TM.C02_monitor_accepts_model')
     rule = ('a case = (state tree, transition set, script, history); non-trivial iff at least one transition with a '
             'state change executed on HierarchicalMachine; distinct by the hash of the encoded case')
     trusted = (
@@ -74,8 +77,8 @@ class C02(nestedcheck.NestedCheck):
         level='proof', design='DESIGN.md 4/C02 + design_notes/C02.md',
         technique='Lean 4 proof (executable model of the hierarchical engine, invariant + ghost bookkeeping) + '
                   'differential correspondence with the real classes + verified monitor on implementation traces',
-        text="Lean 4 proofs, for ALL state definitions / transition sets (global and local) / non-raising scripts / histories (direct and queued): the invariant (admissible configuration, single root, states entered-and-not-exited = active states and their ancestors) holds initially and is carried by every trigger call; no state is entered while active, exited while inactive, entered before its parent or exited before an active descendant; the entered part is closed under initial descent; resolve_order and _enter_nested terminate. 'Entered and afterwards exited within one event' is proved under the exclusion 'at most one transition executes per event' and refuted in general (decide witness, four open findings). Tie to the code: trace equality model = HierarchicalMachine, verified ghost monitor + Python oracle on all six hierarchical classes, small-scope enumeration.",
-        note="Model is hand-written (tied by correspondence); callbacks do not raise and, on unqueued machines, do not trigger events; queued re-entrant triggers are covered by correspondence + monitor, the theorems assume no re-entrant commands; no final states (C18); theorem 'entered-then-exited' is partial (open findings F-C02-ete-*).")
+        text="Lean 4 proofs on a model that follows the repaired nesting.py, for ALL state definitions / transition sets (global and local) / non-raising scripts / histories (direct, queued, queued with callbacks that trigger further events): the invariant (admissible configuration, single root, states entered-and-not-exited = active states and their ancestors) holds initially and is carried by every trigger call; no state is entered while active, exited while inactive, entered before its parent or exited before an active descendant; the entered part is closed under initial descent; resolve_order and _enter_nested terminate; the state value round-trips. 'Entered and afterwards exited within one event' is proved for machine-level declarations up to the one remaining open finding (C02_step_global: only a transition that targets another region of an active parallel state can cause it), for any declarations under 'every executing transition is local at its moment' (C02_step_regions), and refuted in general (decide witness c02Cross; three open findings with narrow signatures). Tie to the code: trace equality model = HierarchicalMachine, verified ghost monitor + Python oracle on all six hierarchical classes (string and Enum states), small-scope enumeration; the projection of the model's item log is proved equal to its ghost log.",
+        note="Model is hand-written (tied by correspondence); callbacks do not raise and, on unqueued machines, do not trigger events; no final states (C18); open findings: no conflict resolution between regions (cross-region@global/@local) and separate passes per scope for locally declared events (related-sources@local); the sub-classification of the monitor clause 'source-active' is done on the harness side.")
 
     def assumptions(self):
         return (
